@@ -1,6 +1,7 @@
 package vc
 
 import (
+	"sync"
 	"regexp"
 	"sort"
 	"fmt"
@@ -427,6 +428,15 @@ func (jf *JSONFamily) installUnInner(f *ssa.Function, jt *jsonType) {
 		fs = append(fs, NamedFormula{Name: "ensures#consumes-declared", Props: []string{"C08", "C06"}, Formula: implies(and(okk, not(eq(m, "0"))), fmt.Sprintf("(forall ((kq Str)) (! (and (= (select %s kq) (and (select %s kq) %s)) (=> %s (= (select %s kq) (select %s kq)))) :pattern ((select %s kq)) :pattern ((select %s kq))))", has1, has0, and(notDecl...), and(notDecl...), val1, val0, has1, val1))})
 		return fs
 	}
+	if !jt.AP && declaresAP(jt.Schema, 0) {
+		// the schema keeps additional properties, the Go type has no place for them
+		base0 := spec
+		spec = func(e *FuncEnc, cptr, m, err string, pre, post *state) []NamedFormula {
+			fs := base0(e, cptr, m, err, pre, post)
+			jf.note(jt.Named.Obj().Name() + ": the schema declares additionalProperties but the Go type has no AdditionalProperties map")
+			return append(fs, NamedFormula{Name: "ensures#additional-kept", Props: []string{"C08", "C06"}, Formula: "false"})
+		}
+	}
 	if jt.AP {
 		base := spec
 		spec = func(e *FuncEnc, cptr, m, err string, pre, post *state) []NamedFormula {
@@ -476,8 +486,16 @@ func (jf *JSONFamily) receiverKeys(T types.Type, mt *types.Map) map[string]bool 
 		vk, hk, _, _, _, _ := e.mapKeys(mt)
 		keys[vk], keys[hk] = true, true
 	}
+	// the sorts of these heaps, for callers that have not touched them yet when
+	// they call (a heap without a known sort cannot be havocked: the call would
+	// leave it unchanged and the callee's postcondition would contradict it)
+	for k, s := range e.heapSorts {
+		modSortRegistry.Store(k, s)
+	}
 	return keys
 }
+
+var modSortRegistry sync.Map // heap key -> sort, for the keys named in contract mod sets
 
 // receiverFrame: cells that existed before the call and are not part of the
 // receiver keep their value (the callee writes its receiver and fresh memory only).
@@ -1039,4 +1057,21 @@ func (jf *JSONFamily) ownCodecUnverified(t types.Type) bool {
 	}
 	jf.note("JSON methods of date / date-time components (`type X time.Time`) are not under contract: their outcome is an uninterpreted function of the document, no strictness clause for such members")
 	return true
+}
+
+// declaresAP: the object schema itself, or a member of its allOf that is
+// declared in place, declares additionalProperties (true or a schema).
+func declaresAP(s *RefSchema, depth int) bool {
+	if s == nil || depth > 4 {
+		return false
+	}
+	if s.APDeclared {
+		return true
+	}
+	for _, m := range s.AllOf {
+		if m != nil && m.Component == "" && declaresAP(m, depth+1) {
+			return true
+		}
+	}
+	return false
 }
